@@ -46,3 +46,17 @@ def json_diff(a_text, b_text, unordered=False):
     if a == b:
         return None
     return apidoc.first_diff(a, b, "json")
+
+
+def strip_examples(js):
+    """catalog JSON with every "example" member removed (None if it does not parse)"""
+    def rec(x):
+        if isinstance(x, dict):
+            return {k: rec(v) for k, v in x.items() if k != "example"}
+        if isinstance(x, list):
+            return [rec(v) for v in x]
+        return x
+    try:
+        return rec(json.loads(js))
+    except ValueError:
+        return None
